@@ -323,6 +323,9 @@ def mkcmp(op, a, b):
         x, y = a.value(), b.value()
         r = {"Eq": x == y, "Ne": x != y, "Lt": x < y, "Le": x <= y, "Gt": x > y, "Ge": x >= y}[op]
         return Cond("true" if r else "false")
+    # a value compared with itself (same wire bits)
+    if isinstance(a, Bits) and isinstance(b, Bits) and a.w == b.w and a.b == b.b:
+        return Cond("true" if op in ("Eq", "Le", "Ge") else "false")
     # integer comparisons with a constant: `x >= c` is written `x > c-1`, `x <= c` is written `x < c+1`
     if isinstance(b, Bits) and b.is_const() and not (isinstance(a, Bits) and a.is_const()):
         if op == "Ge" and b.value() > 0:
@@ -657,6 +660,29 @@ class Evaluator:
         if vkey(a) == vkey(b):
             return a
         return Sym("ite(%s,%s,%s)" % (ckey(c), vkey(a), vkey(b)))
+
+    def _merge2(self, c, a, b):
+        """value of a variable after `if c {…a…} else {…b…}`: structured values are merged field by field"""
+        if a is b:
+            return a
+        if isinstance(a, Agg) and isinstance(b, Agg) and a.adt == b.adt and a.var == b.var and set(a.fields) == set(b.fields):
+            return Agg(a.adt, a.var, {k: self._merge2(c, a.fields[k], b.fields[k]) for k in a.fields})
+        if vkey(a) == vkey(b):
+            return a
+        return Sym("ite(%s,%s,%s)" % (ckey(c), vkey(a), vkey(b)))
+
+    def _phi(self, base, ch):
+        """value after a match some of whose arms (cond, value) changed the variable; field-wise for structured values"""
+        vals = [base] + [x for _, x in ch]
+        if all(isinstance(x, Agg) for x in vals) and len({(x.adt, x.var, tuple(sorted(x.fields))) for x in vals}) == 1:
+            out = {}
+            for k in base.fields:
+                chk = [(c, x.fields[k]) for c, x in ch if x.fields[k] is not base.fields[k]]
+                out[k] = self._phi(base.fields[k], chk) if chk else base.fields[k]
+            return Agg(base.adt, base.var, out)
+        if all(vkey(x) == vkey(base) for _, x in ch):
+            return base
+        return Sym("phi(%s|%s)" % (vkey(base), ";".join("%s:%s" % (ckey(c), vkey(x)) for c, x in ch)))
 
     def _ends_in_return(self, tb, i):
         """expression i is a block whose last statement/tail is `return`"""
@@ -1143,6 +1169,9 @@ class Evaluator:
             if isinstance(clo, tuple) and clo and clo[0] == "closure":
                 r = self.call_closure(clo, [v.fields.get("0")], depth + 1)
                 return r if name == "and_then" else Agg(v.adt, v.var, {"0": r})
+        if fn.startswith("core::option::Option::<T>::") and name in ("get_or_insert", "insert") and len(args) == 2 and isinstance(args[0], Agg) and args[0].var in ("Some", "None"):
+            # value seen through the returned reference (the store into the option is reported by the `watch` record)
+            return args[1] if (args[0].var == "None" or name == "insert") else args[0].fields.get("0")
         if fn.startswith("core::option::Option::<T>::") and name in ("and_then", "map", "map_or", "unwrap_or") and args and isinstance(args[0], Agg) and args[0].var in ("Some", "None"):
             # combinators on an option whose variant is known
             v = args[0]
@@ -1324,7 +1353,7 @@ class Evaluator:
                     if isinstance(c, Cond) and c.op in ("true", "false"):
                         env[kk] = env_t.get(kk) if c.op == "true" else env_e.get(kk)
                     else:
-                        env[kk] = Sym("ite(%s,%s,%s)" % (ckey(c), vkey(env_t.get(kk)), vkey(env_e.get(kk))))
+                        env[kk] = self._merge2(c, env_t.get(kk), env_e.get(kk))
             if n.get("else") is None and not followed and self._ends_in_return(tb, n["then"]):
                 return ("if-diverges", ckey(c))
             return
@@ -1359,7 +1388,7 @@ class Evaluator:
                     if len(armenvs) == 1 and isinstance(armenvs[0][0], Cond) and armenvs[0][0].op == "true":
                         env[kk] = ch[0][1]
                     else:
-                        env[kk] = Sym("phi(%s|%s)" % (vkey(env[kk]), ";".join("%s:%s" % (ckey(c), vkey(x)) for c, x in ch)))
+                        env[kk] = self._phi(env[kk], ch)
             return
         if k in ("Assign", "AssignOp"):
             try:
@@ -1368,13 +1397,38 @@ class Evaluator:
             except Unsupported:
                 lhs, rhs = Sym("?"), Sym("?")
             sp = n.get("sp", {})
-            out.append({"assign": (n.get("op", "="), vkey(lhs)[:60000], vkey(rhs)[:60000]), "guard": guard,
-                        "where": "%s:%s" % (sp.get("f"), sp.get("l")), "fn": path})
+            # the assigned place as a path: variable name followed by the field names
             li, ln = tb.e(n["l"])
-            while ln["k"] == "Deref":
+            fpath = []
+            while ln["k"] in ("Deref", "Field"):
+                if ln["k"] == "Field":
+                    fpath.insert(0, ln.get("name", str(ln.get("idx"))))
                 li, ln = tb.e(ln["e"])
+            place = ".".join([ln.get("name", "?") if ln["k"] in ("Var", "Upvar") else "?"] + fpath)
+            out.append({"assign": (n.get("op", "="), vkey(lhs)[:60000], vkey(rhs)[:60000]), "guard": guard, "place": place,
+                        "where": "%s:%s" % (sp.get("f"), sp.get("l")), "fn": path})
+            newv = rhs if k == "Assign" else Sym("%s(%s,%s)" % (n.get("op", "?").replace("Assign", ""), vkey(lhs), vkey(rhs)))
             if ln["k"] in ("Var", "Upvar") and ln["id"] in env:
-                env[ln["id"]] = rhs if k == "Assign" else Sym("%s(%s,%s)" % (n.get("op", "?").replace("Assign", ""), vkey(lhs), vkey(rhs)))
+                if not fpath:
+                    env[ln["id"]] = newv
+                elif isinstance(env[ln["id"]], Agg):
+                    # a field of a structured value: the variable is rebound to an updated copy (the copy keeps the
+                    # branches of an enclosing if/match apart; they are merged when the branches join)
+                    def upd(v, names):
+                        if not isinstance(v, Agg) or names[0] not in v.fields:
+                            return None
+                        flds = dict(v.fields)
+                        if len(names) == 1:
+                            flds[names[0]] = newv
+                        else:
+                            inner = upd(v.fields[names[0]], names[1:])
+                            if inner is None:
+                                return None
+                            flds[names[0]] = inner
+                        return Agg(v.adt, v.var, flds)
+                    nv = upd(env[ln["id"]], fpath)
+                    if nv is not None:
+                        env[ln["id"]] = nv
         if k == "Closure" and getattr(self, "watch", None) and self.watch(n.get("def") or ""):
             out.append({"call": n.get("def"), "args": [], "argv": [], "guard": guard, "fn": path, "node": i, "tb": tb, "closure": True})
         if getattr(self, "watch_codes", False):
